@@ -669,8 +669,9 @@ fn family_mixed_tags(o: &mut Out, rng: &mut Rng, thorough: bool) {
     for it in 0..(if thorough { 12 } else { 2 }) {
         let (ver, rct) = RCTS[rng.below(RCTS.len() as u64) as usize];
         let am = rng.u64_boundary();
-        let tagged_first = thorough && it % 4 == 3;
-        let (kind, outs) = if !tagged_first || !thorough {
+        // thorough: every fourth case is the reverse variant; quick: it = 0 is the first variant, it = 1 the reverse one
+        let untagged_first = if thorough { it % 4 == 3 } else { it % 2 == 1 };
+        let (kind, outs) = if !untagged_first {
             // first: tagged, not ours (foreign through the main key / ours with a wrong tag / foreign through its additional key)
             let first = match (it + rng.below(3) as usize) % 3 { 0 => format!("F.m.t.0.{}", am), 1 => format!("P.m.{}.0.{}", rng.pick(&WRONG_TAGS), am), _ => format!("F.a.t.0.{}", am) };
             ("mixed-tags:tagged-foreign-first", vec![first, "X".to_string(), format!("P.m.n.0.{}", am ^ 1), format!("S1/2.a.n.0.{}", am ^ 2), format!("S0/1.a.t.0.{}", am ^ 3), format!("P.m.n.0.{}", am ^ 5)])
